@@ -59,11 +59,10 @@ Fixpoint upd_last (f : A -> A) (x : list A) : list A :=
 (* x[idx] (gather) and x[idx] = vals (scatter) for an index list *)
 Definition gather (idx : list nat) (x : list A) : list A :=
   map (fun i => nth i x zero) idx.
-Fixpoint set_nth (i : nat) (y : A) (x : list A) : list A :=
-  match x, i with
-  | [], _ => []
-  | _ :: xs, O => y :: xs
-  | x0 :: xs, S i' => x0 :: set_nth i' y xs
+Fixpoint set_nth (i : nat) (y : A) (x : list A) {struct i} : list A :=
+  match i with
+  | O => match x with [] => [] | _ :: xs => y :: xs end
+  | S i' => match x with [] => [] | x0 :: xs => x0 :: set_nth i' y xs end
   end.
 Fixpoint scatter (idx : list nat) (vals : list A) (x : list A) : list A :=
   match idx, vals with
